@@ -134,6 +134,12 @@ func c16Failing(r *ev.Rand, st *c16State, seq int) hx.Op {
 			}
 			d := st.dss[r.Intn(len(st.dss))]
 			if d.resizable {
+				switch r.Intn(3) {
+				case 0:
+					return hx.Op{K: "resize", Path: d.path, Dims: []uint64{0}, Tag: "resize-zero-extent"}
+				case 1:
+					return hx.Op{K: "resize", Path: d.path, Dims: []uint64{1 << 62}, Tag: "resize-astronomic"}
+				}
 				return hx.Op{K: "resize", Path: d.path, Dims: []uint64{4, 4}, Tag: "resize-rank-mismatch"}
 			}
 			return hx.Op{K: "resize", Path: d.path, Dims: []uint64{d.n + 1}, Tag: "resize-not-resizable"}
@@ -366,7 +372,7 @@ func c16Run(c *ev.Ctx) {
 			d := st.dss[r.Intn(len(st.dss))]
 			av := hx.ScalarOf(r, "i32")
 			tail = append(tail, hx.Op{K: "attr", Path: d.path, Name: "late", Data: &av, Tag: "closed-handle"})
-			if _, ok := hx.DTypeOf(d.dt); ok {
+			if _, ok := hx.DTypeOf(d.dt); ok && !strings.HasPrefix(d.dt, "v") {
 				v := hx.GenNumeric(r, "[]"+d.dt, int(d.n), 2)
 				tail = append(tail, hx.Op{K: "write", Path: d.path, Data: &v, Tag: "closed-handle"})
 			}
